@@ -4,6 +4,7 @@ use crate::case::{CaseOut, Ctx, Tier};
 use crate::common::*;
 use crate::drive::*;
 use crate::json::J;
+use crate::model::{build_universe, collect_exists, collect_phs, Sem};
 use crate::props::workload::workload;
 use crate::rng::Rng;
 use chalk_ir::*;
@@ -37,7 +38,7 @@ fn compatible(l: &Loaded, limited: &Option<Solution<I>>, full: &Option<Solution<
         // definite guidance is a claim about every solution; when the full answer gives no such guidance the limited
         // answer is not weaker but stronger
         (Some(Solution::Ambig(Guidance::Definite(_))), Some(Solution::Ambig(Guidance::Unknown))) | (Some(Solution::Ambig(Guidance::Definite(_))), Some(Solution::Ambig(Guidance::Suggested(_)))) => {
-            Err("limited solve claims definite guidance that the full answer does not give".into())
+            Err("NEEDS-MODEL".into())
         }
         (Some(Solution::Ambig(Guidance::Definite(d))), Some(f)) => match subst_of(f) {
             // definite guidance must generalise the full answer's definite substitution
@@ -164,6 +165,34 @@ pub fn run(ctx: &Ctx, out: &mut CaseOut) {
                             out.count(&format!("limited-compatible:{}:{}", solver_name(&choice), if &lim == full { "same-as-full" } else { "weaker-ambiguous" }));
                         }
                         Err(e) if e.starts_with("INCONCLUSIVE") => out.inconclusive("instance check failed"),
+                        Err(e) if e == "NEEDS-MODEL" => {
+                            // The full answer gives no guidance at all, the limited one gives definite guidance. That does not
+                            // contradict the full answer as long as the guidance is *true* (excludes no solution of the goal);
+                            // this is decided against the reference semantics where the goal has a structured form.
+                            let verdict = match (&w.goals[gi].2, &peeled[gi]) {
+                                (Some(mg), Some(p)) => match translate(&l.program, p, &lim) {
+                                    Ok(ans) => {
+                                        let mut phs = vec![];
+                                        collect_phs(mg, &mut phs);
+                                        let mut ex = vec![];
+                                        collect_exists(mg, &mut ex);
+                                        let uni = build_universe(&w.prog, &phs, 3);
+                                        let mut sem = Sem::new(&w.prog, 5);
+                                        Some(crate::judge::check(&mut sem, &uni, mg, &ex, &ans).map(|_| ()))
+                                    }
+                                    Err(_) => None,
+                                },
+                                _ => None,
+                            };
+                            match verdict {
+                                Some(Ok(())) => out.count(&format!("limited-compatible:{}:definite-guidance-true-in-model", solver_name(&choice))),
+                                Some(Err(m)) => {
+                                    out.violation(None, format!("{} interrupted ({}): limited solve claims definite guidance that the full answer does not give and that excludes a solution ({}): limited `{}` vs full `{}`", solver_name(&choice), sched_name, crate::case::truncate(&m, 160), disp(&lim), disp(full)), d());
+                                    continue;
+                                }
+                                None => out.count("limited-definite-vs-full-unknown(no structured goal; not judged)"),
+                            }
+                        }
                         Err(e) => {
                             out.violation(None, format!("{} interrupted ({}): {}: limited `{}` vs full `{}`", solver_name(&choice), sched_name, e, disp(&lim), disp(full)), d());
                             continue;
@@ -192,6 +221,9 @@ pub fn run(ctx: &Ctx, out: &mut CaseOut) {
                                             // F12: tables left half-explored by the interrupted solve change the order in which
                                             // answers arrive
                                             Some("slg:trivial-answer-green-cut-order")
+                                        } else if is_slg {
+                                            let warm_sub = slg_subsumed_answers(&mut slg_s);
+                                            slg_order_signature(&disp(&a), warm_sub, &disp(fj), fresh_slg_subsumed(&l, &pj.goal))
                                         } else {
                                             None
                                         },
